@@ -76,10 +76,14 @@ def properties_of(v, job):
         out.add("C05")
     if rule.startswith("zero-copy:"):
         out.add("C04")
+    if rule.startswith("framing:"):
+        out.add("C03")
     if rule.startswith("history:") or rule.startswith("use-of-hist"):
         out.add("C18")
     if rule.startswith("headers:"):
         out.add("C17")
+    if rule == "headers:not-restored":
+        out.add("C18")  # the documented parse / read more / parse again loop no longer behaves like a fresh value
     if rule == "partial-with-unread-input":
         out.add("C11")
     if rule.startswith("spec:"):
@@ -109,8 +113,7 @@ def properties_of(v, job):
                 out.add("C04")
         else:
             out.add(gram)
-            if "head is complete" in d or ("returned Complete" in d and "Partial" in d) or ("needs more input" in d and "Complete" in d):
-                out.add("C03")
+
             if "TooManyHeaders" in d:
                 out.add("C10")
                 out.add("C17")
